@@ -25,5 +25,5 @@ def history_gen(nops=40, **kw):
 def nontrivial_history(cfg, lines, obs):
     """a history is non-trivial when at least one container crossed inline->heap (or grew) and one op shifted elements"""
     grew = any(o.al[0] + o.al[2] > 0 for o in obs) or cfg.fl == 'fixed'
-    mid = any(l.split()[0] in ('ins', 'insm', 'inss', 'insn', 'insns', 'insr', 'insri', 'emp', 'emps', 'era', 'eran') for l in lines)
+    mid = any(l.split()[0] in ('ins', 'insm', 'inss', 'insn', 'insns', 'insr', 'insri', 'emp', 'emps', 'empa', 'era', 'eran') for l in lines)
     return grew and mid
